@@ -509,6 +509,22 @@ UpdateNSTBalance(st, a) ==
   IN [st |-> p3.st, err |-> p3.err]
 
 (***************************************************************************)
+(* x/delegation/keeper/msg_server.go: MsgDelegation / MsgUndelegation       *)
+(* (native token only): one cache context around the loop over the          *)
+(* per-operator entries; every entry carries the SAME nonce (the signer's   *)
+(* account sequence) and the SAME hash.  a = [s, items, nonce, txh],        *)
+(* items = sequence of [o, x]                                               *)
+(***************************************************************************)
+MsgDelegate(st, a) ==
+  LET step(acc, it) == IF acc.err # "" THEN acc ELSE DelegateTo(acc.st, [s |-> a.s, a |-> "nat", o |-> it.o, x |-> it.x])
+  IN WithCache(st, Fold(step, Ok(st), a.items))
+
+MsgUndelegate(st, a) ==
+  LET step(acc, it) == IF acc.err # "" THEN acc
+                       ELSE UndelegateFrom(acc.st, [s |-> a.s, a |-> "nat", o |-> it.o, x |-> it.x, nonce |-> a.nonce, txh |-> a.txh])
+  IN WithCache(st, Fold(step, Ok(st), a.items))
+
+(***************************************************************************)
 (* Entry points, by event name (what the harness drives and logs)           *)
 (***************************************************************************)
 Apply(st, ev, a) ==
@@ -516,6 +532,8 @@ Apply(st, ev, a) ==
     [] ev = "Withdraw"    -> DepositOrWithdraw(st, [s |-> a.s, a |-> a.a, x |-> a.x, dir |-> -1])
     [] ev = "Delegate"    -> DelegateTo(st, a)
     [] ev = "Undelegate"  -> UndelegateFrom(st, a)
+    [] ev = "MsgDelegate"   -> MsgDelegate(st, a)
+    [] ev = "MsgUndelegate" -> MsgUndelegate(st, a)
     [] ev = "Associate"   -> Associate(st, a)
     [] ev = "Dissociate"  -> Dissociate(st, a)
     [] ev = "Slash"       -> Slash(st, a)
@@ -564,6 +582,15 @@ Goals(pre, ev, a, r) ==
          G(ok /\ KIND[a.a] # "nat" /\ pre.assoc[a.s] = a.o, "und_self") \cup
          G(ok /\ \E k \in DOMAIN pre.recs : pre.recs[k].s = a.s /\ pre.recs[k].a = a.a, "und_second_pending_same_staker_asset") \cup
          G(~ok /\ r.err = "ErrInsufficientShares", "und_over_position")
+    [] ev = "MsgDelegate" ->
+         G(ok /\ Len(a.items) >= 2, "msgdel_two_entries") \cup
+         G(~ok /\ Len(a.items) >= 2 /\ DelegateTo(pre, [s |-> a.s, a |-> "nat", o |-> a.items[1].o, x |-> a.items[1].x]).err = "", "msgdel_second_entry_fails")
+    [] ev = "MsgUndelegate" ->
+         G(ok /\ Len(a.items) >= 2 /\ a.items[1].o # a.items[2].o, "msgund_two_operators") \cup
+         G(ok /\ Len(a.items) >= 2 /\ a.items[1].o = a.items[2].o, "msgund_same_operator_twice") \cup
+         G(~ok /\ Len(a.items) >= 2
+              /\ UndelegateFrom(pre, [s |-> a.s, a |-> "nat", o |-> a.items[1].o, x |-> a.items[1].x, nonce |-> a.nonce, txh |-> a.txh]).err = "",
+           "msgund_second_entry_fails")
     [] ev = "Associate"  -> G(ok /\ \E x \in ASSETS : NIsPos(pre.del[<<a.s, x, a.o>>].sh), "assoc_with_position")
     [] ev = "Dissociate" -> G(ok /\ \E x \in ASSETS : NIsPos(pre.del[<<a.s, x, pre.assoc[a.s]>>].sh), "dissoc_with_position")
     [] ev = "ReleaseHold" -> G(ok, "hold_released")
@@ -624,7 +651,8 @@ AllGoals ==
    "slash_partial_hits_pending_record",
    "slash_infraction_at_current_height", "slash_replay", "slash_factor_above_one", "slash_zero_value_operator",
    "nst_up", "nst_down_within_withdrawable", "nst_down_ends_inside_pending_records", "nst_down_reaches_shares",
-   "nst_down_shares_two_operators", "nst_down_skips_zero_share_row"}
+   "nst_down_shares_two_operators", "nst_down_skips_zero_share_row",
+   "msgdel_two_entries", "msgdel_second_entry_fails", "msgund_two_operators", "msgund_same_operator_twice", "msgund_second_entry_fails"}
 
 (***************************************************************************)
 (* Properties (state predicates over a store and the ghosts G; the bounded  *)
@@ -654,7 +682,7 @@ GhostStep(g, ev, a, ok, pre, post) ==
     [] ev = "NstUpdate" /\ NIsPos(a.d) /\ ok      -> [g EXCEPT !.cumUp[a.a] = NAdd(@, a.d)]
     [] ev = "NstUpdate" /\ NIsNeg(a.d)            -> [g EXCEPT !.cumDown[a.a] = NAdd(@, NSub(HeldBy(pre, a.a), HeldBy(post, a.a)))]
     [] ev = "Slash" -> [g EXCEPT !.cumSlash = [x \in ASSETS |-> NAdd(@[x], NSub(HeldBy(pre, x), HeldBy(post, x)))]]
-    [] ev = "Undelegate" -> [g EXCEPT !.used = @ \cup {a.nonce}]
+    [] ev \in {"Undelegate", "MsgUndelegate"} -> [g EXCEPT !.used = @ \cup {a.nonce}]
     [] OTHER -> g
 
 \* C01
